@@ -1,16 +1,19 @@
+"""C19 witness: a loop-requiring node or source declared asynchronous=True (and given no loop) had its mode
+overwritten with False by the ensure_io_loop fallback and was bound to the shared background-thread loop:
+its callbacks ran outside the caller's event loop, on a thread the caller never asked for."""
 import asyncio, threading
 from streamz import Stream
-from streamz.core import RefCounter
 from tornado.ioloop import IOLoop
 
-# C19: source declared asynchronous=True
+
 async def main():
-    s = Stream.from_iterable([1,2,3], asynchronous=True)
-    print("from_iterable asynchronous:", s.asynchronous, "loop is current:", s.loop is IOLoop.current(), "threads:", [t.name for t in threading.enumerate()])
-    s2 = Stream(asynchronous=True)
-    b = s2.buffer(3)
-    print("buffer asynchronous:", b.asynchronous, b.loop is IOLoop.current())
-    s3 = Stream()
-    b3 = s3.buffer(3, asynchronous=True)
-    print("buffer(asynchronous=True) on fresh stream:", b3.asynchronous, b3.loop is IOLoop.current(), s3.asynchronous)
+    s = Stream.from_iterable([1, 2, 3], asynchronous=True)
+    print('source: asynchronous =', s.asynchronous, '| loop is the caller\'s loop:', s.loop is IOLoop.current(),
+          '| threads:', [t.name for t in threading.enumerate()])
+    assert s.asynchronous is True and s.loop is IOLoop.current()
+    assert len(threading.enumerate()) == 1, 'a background thread was started for an asynchronous source'
+    b = Stream().buffer(3, asynchronous=True)
+    assert b.asynchronous is True and b.loop is IOLoop.current()
+    print('OK')
+
 asyncio.run(main())
